@@ -29,7 +29,9 @@ def run(ctx, spec):
         else:
             st = streams.build(rng, cands, k=1, n_each=tuple(spec['len']), tagged=rng.random() < 0.3,
                                opts={'dead_mention': rng.choice([0.15, 0.5]), 'equal_times': rng.choice([0.2, 0.6]),
-                                     'big_gaps': rng.choice([0.1, 0.4]), 'tie_prefix': rng.choice([0, 0, 0, 6, 15, 40])})
+                                     'big_gaps': rng.choice([0.1, 0.4]), 'tie_prefix': rng.choice([0, 0, 0, 6, 15, 40]),
+                                     'backsteps': rng.choice([0, 0, 0, 0.04, 0.15]), 'wrap': rng.random() < 0.1},
+                               t0=(2 ** 32 - rng.randint(1, 2 * 10 ** 6)) if rng.random() < 0.08 else None)
         api = i % 4 == 3 and i != spec['n']
         if api:
             # two connections one after the other under one connection id (GDB mode: an address used again)
